@@ -4,7 +4,7 @@ SHELL := /bin/bash
 COQ_TIMEOUT ?= 1800
 J ?= 12
 
-.PHONY: setup all coq extract driver clean
+.PHONY: setup all coq extract driver clean prectable
 
 setup: all
 all: coq driver
@@ -12,7 +12,13 @@ all: coq driver
 coq/Makefile.coq: coq/_CoqProject
 	cd coq && coq_makefile -f _CoqProject -o Makefile.coq
 
-coq: coq/Makefile.coq
+# the precedence table of the parser model is regenerated from rtamt's generated ANTLR parser on every build
+REPO ?= /repo
+prectable:
+	@python3 tools/gen_prectable.py $(REPO)/rtamt/antlr/parser/stl/StlParser.py build/PrecTable.v.new 2>/dev/null || (mkdir -p build && python3 tools/gen_prectable.py $(REPO)/rtamt/antlr/parser/stl/StlParser.py build/PrecTable.v.new)
+	@cmp -s build/PrecTable.v.new coq/theories/PrecTable.v || cp build/PrecTable.v.new coq/theories/PrecTable.v
+
+coq: prectable coq/Makefile.coq
 	cd coq && timeout $(COQ_TIMEOUT) $(MAKE) -f Makefile.coq -j$(J)
 
 extract: coq
